@@ -24,7 +24,8 @@ CHECKS = {
 }
 
 CHECKS["C01"] = dict(
-    text="Theorems (Props/C01.lean, C01Framing.lean) over the model of han/hdlc.py for ALL octet streams, configurations and (by C06) "
+    text="Read()-level forms (Props/C01Read.lean): read_frames_inv, read_valid_iff_intact, read_accessors_exact, read_framing(_history) for any reader reachable by read() calls and any chunking; tie by translation (C01Gen, C01GenReader): header/frame accessors and the reader's state-machine core as mechanically translated from the source equal the model. "
+         "Theorems (Props/C01.lean, C01Framing.lean) over the model of han/hdlc.py for ALL octet streams, configurations and (by C06) "
          "splittings: every returned frame satisfies the frame invariant (running FCS register = FCS of its octets, cached control "
          "position = position determined by the address fields); is_valid <-> Intact (length field = octet count and trailer = "
          "RFC 1662 FCS-16 of the preceding octets, low octet first; uses the C03 residue theorem); every returned frame has a complete "
@@ -47,7 +48,8 @@ CHECKS["C06"] = dict(
     design="5/C06")
 
 CHECKS["C02"] = dict(
-    text="Theorem clean_stream_delivered (Props/C02.lean): for every configuration, flag-free noise, every list of well-formed frame "
+    text="Read()-level (Props/C02Read.lean): clean_stream_observed (what each returned frame reports = what was sent), also from a hunting / between-frames reader; tie by translation re-exported (C02GenReader). "
+         "Theorem clean_stream_delivered (Props/C02.lean): for every configuration, flag-free noise, every list of well-formed frame "
          "descriptors (any format type, segmentation bit, 1..n-octet addresses, control, payload octets incl. flags/escapes, total <= 2047) "
          "inside the stated domain (stuffing, or no flag in header+HCS and - with abort detection - no escape directly before a flag or the "
          "end), fill >= 1 flags, and EVERY splitting into read() calls, the model reader returns exactly one frame object per descriptor, in "
@@ -58,7 +60,8 @@ CHECKS["C02"] = dict(
     technique="Lean 4 proof (one-frame lemma, induction over frames, refinement to chunked reads) + spec-encoder-driven differential correspondence",
     design="5/C02")
 CHECKS["C04"] = dict(
-    text="Theorems (Props/C04.lean): the CRC loop is CRC-16/ARC for every byte string; valid_sound: a readout built by the constructor and "
+    text="Raw bytes (Props/C04General.lean): valid_iff - is_valid = True iff the identification line is 7-bit and matches, data octets <= 0x80, and the text after '!' is blank or int(.,16)-parsable to the CRC-16/ARC of the bytes through '!' (int16_grammar states that grammar); valid_complete_general/_ascii, no_lf_invalid; C04Gen: translated _calculate_crc16 = model. "
+         "Theorems (Props/C04.lean): the CRC loop is CRC-16/ARC for every byte string; valid_sound: a readout built by the constructor and "
          "reported valid has a parsing identification line and, whenever the text after '!' is four hex digits (+ optional CR LF), that value "
          "equals the CRC of the bytes from '/' through '!' (0000 included); mismatch_invalid; isValid_total (never raises); valid_complete: "
          "every well-formed readout descriptor (IEC 62056-21 identification, printable data lines, checksum in either case or none) encodes to "
@@ -109,7 +112,8 @@ CHECKS["C14"] = dict(
     technique="Lean 4 proof (Except-valued refinement: every partial primitive is guarded) + differential noise correspondence",
     design="5/C14")
 CHECKS["C19"] = dict(
-    text="Theorems (Props/C19Hdlc.lean, C19P1.lean) for EVERY history: after any read() the HDLC reader retains at most 3*2047+1 octets "
+    text="Read()-level (Props/C19HdlcRead.lean): hdlc_bounded_readAll / _every_call for any chunking. "
+         "Theorems (Props/C19Hdlc.lean, C19P1.lean) for EVERY history: after any read() the HDLC reader retains at most 3*2047+1 octets "
          "(buffer empty between calls, frame <= 2047, raw history <= 2*frame+1) - attained exactly in the soak; the P1 reader carries at most "
          "guard + |chunk| pending octets into the next call and retains at most 2*8191 + 2*|chunk| octets (consumed bytes stay in the "
          "bytearray until the next call while they are also copied into the collected lines; a machine-checked counterexample shows the "
@@ -132,7 +136,8 @@ CHECKS["C05"] = dict(
     technique="Lean 4 proof (stream-position invariant over all chunkings) + spec-encoder-driven differential correspondence",
     design="5/C05")
 CHECKS["C16"] = dict(
-    text="Theorems: hdlc_resync_stuffing(_chunked) - after ANY octets, with octet stuffing, every well-formed frame of a following clean "
+    text="Read()-level and tightened (Props/C16HdlcRead.lean): hdlc_resync_plain_tight/_chunked/_read with bound maxFrameLen + L (checked example: +L needed), hdlc_resync_plain_survivors_read without the 'no frame ends in 7D' hypothesis (abort detection on: exactly `survivors` come out; checked witness that a clean frame ending in 7D is lost). "
+         "Theorems: hdlc_resync_stuffing(_chunked) - after ANY octets, with octet stuffing, every well-formed frame of a following clean "
          "stream except possibly the first is delivered, exact and in order, for every chunking; hdlc_resync_plain - without stuffing, "
          "flag-free frames are all delivered from a point at most maxFrameLen + 2 frames into the clean stream; p1_resync - after ANY "
          "bytes every well-formed readout except possibly the first is delivered, for every chunking. No-contamination follows from the C01 "
@@ -169,7 +174,8 @@ CHECKS["C10"] = dict(
     technique="Lean 4 proof (arithmetic on the 13 octets, calendar validity) + differential correspondence in every syntactic position",
     design="5/C10")
 CHECKS["C18"] = dict(
-    text="Theorems (Props/C18.lean): backoff_value - for EVERY sequence of failure()/reset() calls and every max_delay the strategy reports "
+    text="Trace level (Props/C18Trace.lean): attempt_after_failure_paced (for every reachable log: tf + min(2^(n-1), max_delay) <= ta), backoff_state_matches_log, attempt_after_two_losses_paced (+ checked counterexample to the naive breaker sentence: the breaker compares the times the loop SEES the losses); C18Gen: translated back-off bodies = model. "
+         "Theorems (Props/C18.lean): backoff_value - for EVERY sequence of failure()/reset() calls and every max_delay the strategy reports "
          "min(2^(n-1), max_delay) after n >= 1 failures since the last reset and 0 after a reset; reset_restarts; capped_and_monotone; "
          "sleep_time_eq - _get_back_off_time = max(connect-error delay, breaker sleep if flagged); breaker_sets / breaker_clears - two "
          "losses within the threshold make the next attempt wait at least the configured sleep, losses further apart add nothing. "
@@ -204,7 +210,8 @@ CHECKS["C09"] = dict(
     technique="Lean 4 proof (greedy element parser round trip, OBIS-text injectivity for the scaling lookup, exact binary64 lemma) + differential correspondence",
     design="5/C09")
 CHECKS["C11"] = dict(
-    text="Theorems (Props/C11.lean, C11Float.lean): parse_block - every well-formed data block (several data sets per line, 1..n values, "
+    text="End to end (Props/C11End.lean): ofStr_decimal (float(text) of a decimal text is ofRat digits 10^k), decode_kilo_decimal(_digits) (kW.. values give E or E-1, never above, <= 15 significant digits), decode_plain_decimal(_error) (correctly rounded binary64, relative error <= 2^-53). "
+         "Theorems (Props/C11.lean, C11Float.lean): parse_block - every well-formed data block (several data sets per line, 1..n values, "
          "units, blank lines, LF/CRLF) parses into exactly the transmitted data sets; parse_terminates and parse_cost(_tight) - the repaired "
          "parser never exhausts the model's fuel and makes at most len(data) loop iterations; decode_name, decode_verbatim, "
          "decode_plain_unit, decode_kilo_unit, decode_clock; readout_eq_content_plus_ident (same block through decode_p1_readout = content "
@@ -248,7 +255,8 @@ CHECKS["C15"] = dict(
     design="5/C15")
 
 CHECKS["C17"] = dict(
-    text="Model: a transition system over asyncio's atomic unit, the task step (connect_loop, the current _try_connect, the closing "
+    text="Progress (Props/C17Progress.lean): can_always_reach_next_attempt (<= 6 steps from any reachable non-closing state), fair_run_reconnects / fair_run_attempts_unbounded under explicit fairness hypotheses. "
+         "Model: a transition system over asyncio's atomic unit, the task step (connect_loop, the current _try_connect, the closing "
          "waiters) with NONDETERMINISTIC scheduling and environment transitions close(), factory returns / raises, connection lost, clock "
          "advance. Theorems (Props/C17.lean) over EVERY reachable state, every configuration: at_most_one_live (and the live one is "
          "_connection); attempt_only_after_previous_ended; tasks_bounded (<= 3 pending tasks however many cycles); exited_clean (after "
